@@ -1,7 +1,177 @@
-// Remote mode (E-proc, DESIGN.md §4.5): placeholder until the process engine is wired in.
+// Remote mode (E-proc, DESIGN.md §4.5): a single threaded child process whose every yield point
+// (wrapped system call, atomic operation on shared memory, sleep) is reported to the controller over a
+// socket; the child continues only when the controller answers. The controller therefore owns the
+// interleaving of several real processes, their clock, and can kill a process at any yield point.
+//
+// wire format (text lines):
+//   child -> controller   Y <kind> <arg> <detail>      yield point (detail: path or empty)
+//                         S <nanoseconds>               sleep request (virtual time)
+//                         O <text>                      observation for the oracle
+//                         D <status>                    script finished
+//   controller -> child   G <now_ns>                    go on
+//                         F <errno> <now_ns>            the call fails with errno (fault injection)
+use core::sync::atomic::{AtomicBool, AtomicU32, AtomicU64, Ordering};
+use std::io::{BufRead, BufReader, Write};
+use std::os::unix::io::FromRawFd;
+use std::os::unix::net::UnixStream;
+use std::sync::Mutex;
+
+static ACTIVE: AtomicBool = AtomicBool::new(false);
+static NOW_NS: AtomicU64 = AtomicU64::new(1_000_000_000);
+static VPID: AtomicU32 = AtomicU32::new(0);
+static YIELDS: AtomicU64 = AtomicU64::new(0);
+static IN_HOOK: AtomicBool = AtomicBool::new(false);
+
+struct Chan {
+    w: UnixStream,
+    r: BufReader<UnixStream>,
+}
+static CHAN: Mutex<Option<Chan>> = Mutex::new(None);
+static SHARED: Mutex<Vec<(usize, usize)>> = Mutex::new(Vec::new());
+
 #[inline]
 pub fn active() -> bool {
-    false
+    ACTIVE.load(Ordering::Relaxed)
 }
+
+pub enum Answer {
+    Go,
+    Fail(i32),
+}
+
+/// Switch this (single threaded) process into remote mode, stepping over `fd`.
+pub fn init(fd: i32, virtual_pid: u32) {
+    let s = unsafe { UnixStream::from_raw_fd(fd) };
+    let r = BufReader::new(s.try_clone().expect("clone control socket"));
+    *CHAN.lock().unwrap() = Some(Chan { w: s, r });
+    VPID.store(virtual_pid, Ordering::Relaxed);
+    ACTIVE.store(true, Ordering::SeqCst);
+}
+
+pub fn virtual_pid() -> u32 {
+    VPID.load(Ordering::Relaxed)
+}
+pub fn now_ns() -> u64 {
+    NOW_NS.load(Ordering::Relaxed)
+}
+pub fn yields() -> u64 {
+    YIELDS.load(Ordering::Relaxed)
+}
+
+fn exchange(line: &str, wait_reply: bool) -> Answer {
+    let mut g = match CHAN.lock() {
+        Ok(g) => g,
+        Err(p) => p.into_inner(),
+    };
+    let c = match g.as_mut() {
+        Some(c) => c,
+        None => return Answer::Go,
+    };
+    if c.w.write_all(line.as_bytes()).is_err() {
+        // controller is gone: nothing sensible can be done
+        std::process::exit(3);
+    }
+    if !wait_reply {
+        return Answer::Go;
+    }
+    let mut reply = String::new();
+    match c.r.read_line(&mut reply) {
+        Ok(0) | Err(_) => std::process::exit(3),
+        Ok(_) => {}
+    }
+    let mut it = reply.split_whitespace();
+    match it.next() {
+        Some("G") => {
+            if let Some(n) = it.next().and_then(|x| x.parse::<u64>().ok()) {
+                NOW_NS.store(n, Ordering::Relaxed);
+            }
+            Answer::Go
+        }
+        Some("F") => {
+            let e = it.next().and_then(|x| x.parse::<i32>().ok()).unwrap_or(5);
+            if let Some(n) = it.next().and_then(|x| x.parse::<u64>().ok()) {
+                NOW_NS.store(n, Ordering::Relaxed);
+            }
+            Answer::Fail(e)
+        }
+        _ => std::process::exit(3),
+    }
+}
+
+/// A yield point: report and wait for the controller's decision.
+pub fn yield_point(kind: &str, arg: i64, detail: &str) -> Answer {
+    if !active() {
+        return Answer::Go;
+    }
+    if IN_HOOK.swap(true, Ordering::Relaxed) {
+        return Answer::Go; // re-entrancy (an atomic used while we talk to the controller)
+    }
+    YIELDS.fetch_add(1, Ordering::Relaxed);
+    let clean: String = detail.chars().map(|c| if c == '\n' || c == ' ' { '_' } else { c }).collect();
+    let a = exchange(&format!("Y {kind} {arg} {clean}\n"), true);
+    IN_HOOK.store(false, Ordering::Relaxed);
+    a
+}
+
+/// Sleep in virtual time.
+pub fn sleep_ns(ns: u64) {
+    if !active() {
+        return;
+    }
+    if IN_HOOK.swap(true, Ordering::Relaxed) {
+        return;
+    }
+    YIELDS.fetch_add(1, Ordering::Relaxed);
+    let _ = exchange(&format!("S {ns}\n"), true);
+    IN_HOOK.store(false, Ordering::Relaxed);
+}
+
+/// Report an observation (API result, list output) to the oracle in the controller.
+pub fn observe(text: &str) {
+    if !active() {
+        return;
+    }
+    let was = IN_HOOK.swap(true, Ordering::Relaxed);
+    let clean: String = text.chars().map(|c| if c == '\n' { ' ' } else { c }).collect();
+    let _ = exchange(&format!("O {clean}\n"), false);
+    IN_HOOK.store(was, Ordering::Relaxed);
+}
+
+pub fn done(status: i32) {
+    if !active() {
+        return;
+    }
+    IN_HOOK.store(true, Ordering::Relaxed);
+    let _ = exchange(&format!("D {status}\n"), false);
+}
+
+pub fn register_shared(addr: usize, len: usize) {
+    if let Ok(mut g) = SHARED.lock() {
+        g.push((addr, len));
+    }
+}
+pub fn unregister_shared(addr: usize) {
+    if let Ok(mut g) = SHARED.lock() {
+        g.retain(|r| r.0 != addr);
+    }
+}
+
+/// Called by every instrumented atomic operation while remote mode is active: an operation on a word
+/// inside a shared mapping is a yield point (kind 0 load, 1 store, 2 read-modify-write).
 #[inline]
-pub fn atomic_hook(_addr: usize, _kind: u8) {}
+pub fn atomic_hook(addr: usize, kind: u8) {
+    if IN_HOOK.load(Ordering::Relaxed) {
+        return;
+    }
+    let shared = match SHARED.try_lock() {
+        Ok(g) => g.iter().any(|r| addr >= r.0 && addr < r.0 + r.1),
+        Err(_) => false,
+    };
+    if shared {
+        let _ = yield_point(match kind {
+            0 => "shm-load",
+            1 => "shm-store",
+            _ => "shm-rmw",
+        }, 0, "");
+    }
+}
